@@ -11,12 +11,12 @@ def _lit(rng, clock, v):
             return [v / f, u]
         return [float(v), "s"]
     if clock == "int":
-        return int(v)
+        return int(v) if v == int(v) else float(v)
     return rng.choice([float(v), v]) if float(v) == int(v) and rng.random() < 0.2 else float(v)
 
 
 def gen_program(rng, clock=None, n_events=None, with_bad=True, with_cancel=True, horizon=None, faults=False,
-                warm=None, beyond=True, bigint=False, initial=True, start_at=None):
+                warm=None, beyond=True, bigint=False, initial=True, start_at=None, fractional=False):
     clock = clock or rng.choice(["float", "int", "duration"])
     length = horizon or rng.choice([10, 20, 50])
     start = rng.choice([0, 0, 0, 5]) if clock != "duration" else 0
@@ -27,6 +27,8 @@ def gen_program(rng, clock=None, n_events=None, with_bad=True, with_cancel=True,
     warmup = warm if warm is not None else rng.choice([0, 0, 2, 5, length // 2, length])
     n = n_events or rng.randint(5, 40)
     step = rng.choice([1, 1, 2, 0.5, 0.25]) if clock != "int" else rng.choice([1, 1, 2, 3])
+    if fractional and clock == "int" and start < 2 ** 50 and rng.random() < 0.15:
+        step = rng.choice([0.5, 0.25, 1.5])      # an int clock accepts any numeric event time: 2.5 lies between 2 and 3
     grid = [start + k * step for k in range(int((length + 6) / step))]
     hot = rng.sample(grid, min(len(grid), rng.randint(1, 4)))       # a few instants that attract exact ties
     handlers = {}
